@@ -5,6 +5,7 @@ import (
 	"go/token"
 	"go/types"
 	"sort"
+	"strings"
 
 	"golang.org/x/tools/go/ssa"
 )
@@ -95,6 +96,24 @@ func (ex *Exec) cutLoop(li *loopInfo, st *State) {
 			st.ghost[key] = nv
 		}
 	}
+	// automatic loop frame: what the function's `modifies` does not allow stays as at function entry
+	li.frameHeaps = nil
+	if ex.con != nil && !ex.con.modifiesAll() && !ex.con.NoFrame && !ms.all {
+		for _, h := range hs {
+			srt := ex.heapR.sorts[h]
+			if !strings.HasPrefix(srt, "(Array Int ") {
+				continue
+			}
+			li.frameHeaps = append(li.frameHeaps, h)
+			cond, ok := ex.frameCond(h, T{"q!fr", SInt})
+			if !ok {
+				continue
+			}
+			h0 := ex.heapGet(ex.entry, h, srt)
+			h1 := ex.heapGet(st, h, srt)
+			vc.assume(st.guard, T{fmt.Sprintf("(forall ((q!fr Int)) (! (=> %s (= (select %s q!fr) (select %s q!fr))) :pattern ((select %s q!fr))))", cond.s, h1.s, h0.s, h1.s), SBool})
+		}
+	}
 	// assume invariants
 	env2 := ex.specEnv(st, ex.entry, false)
 	env2.loop = li
@@ -148,7 +167,7 @@ func (ex *Exec) closeLoop(li *loopInfo, st *State, g T) {
 	}
 	lc := ex.con.Loops[li.ordinal]
 	if lc == nil {
-		return
+		lc = &LoopContract{}
 	}
 	tmp := st.clone()
 	tmp.guard = g
@@ -167,10 +186,45 @@ func (ex *Exec) closeLoop(li *loopInfo, st *State, g T) {
 		o := vc.oblige("inv-pres", fmt.Sprintf("inv-pres:%s/loop%d#%s", ex.conName(), li.ordinal, label), g, t, ex.pos(token.NoPos))
 		o.Note = inv.Src
 	}
+	for _, h := range li.frameHeaps {
+		srt := ex.heapR.sorts[h]
+		q := vc.fresh("fr", SInt)
+		cond, ok := ex.frameCond(h, q)
+		if !ok {
+			continue
+		}
+		h0 := ex.heapGet(ex.entry, h, srt)
+		h1 := ex.heapGet(tmp, h, srt)
+		vc.oblige("frame", fmt.Sprintf("frame-loop:%s/loop%d:%s", ex.conName(), li.ordinal, h), g, Imp(cond, Eq(Select(h1, q), Select(h0, q))), ex.pos(token.NoPos))
+	}
 	if lc.Decreases != nil && li.hasVar {
 		t, err := env.eval(lc.Decreases.Expr)
 		if err == nil {
 			vc.oblige("decr", fmt.Sprintf("decr:%s/loop%d", ex.conName(), li.ordinal), g, And(Lt(t.t, li.variant0), Ge(li.variant0, IntLit(0))), ex.pos(token.NoPos))
 		}
 	}
+}
+
+// frameCond: q is a pre-existing cell of heap h that the contract's `modifies` does not allow to change.
+func (ex *Exec) frameCond(h string, q T) (T, bool) {
+	a0 := ex.ghostGet(ex.entry, "alloc")
+	cond := And(Ge(q, IntLit(1)), Le(q, a0))
+	for _, m := range ex.con.Modifies {
+		for _, mh := range m.heaps {
+			if mh != h {
+				continue
+			}
+			if m.at == nil {
+				return T{}, false // whole heap may change
+			}
+			env := ex.specEnv(ex.entry, ex.entry, true)
+			tv, err := env.eval(m.at)
+			if err != nil {
+				ex.fail("modifies: %v", err)
+				return T{}, false
+			}
+			cond = And(cond, Not(Eq(q, tv.t)))
+		}
+	}
+	return cond, true
 }
